@@ -38,6 +38,13 @@ CLAIMED = {
              "to length 6 over the special alphabet). Graph-level round trips of all eight formats (blank-node topologies, lists, literals) are conformance runs against a backtracking "
              "isomorphism oracle, with 15 known findings identified by input-side triggers.",
         design="0, 7/C03", technique="Coq proof (string codec round trips by induction over code points, regexes as deterministic scanners over reflected character tables)" + T_CORR),
+    "C04": dict(
+        text="Proof (partial): SPARQL 1.1 section 18 bottom-up evaluation is the specification and a function-by-function Gallina model of rdflib's top-down evaluator (evalBGP with context push, "
+             "lazy and hash joins, LeftJoin with its second evaluation, Filter/Extend with forget, Union, Minus, Values, Graph, Project, Distinct, three-valued expressions) is the model. Proved: for "
+             "every BGP, every order of its triple patterns and every incoming context the top-down evaluation is a permutation of the compatible extensions (C04_bgp), UNION and VALUES, and the tie "
+             "theorem on the join-free fragment {BGP, UNION, GRAPH ?g, projection} for SELECT/ASK/CONSTRUCT. Join, push-down for Filter/LeftJoin/Minus/Extend are NOT proved: outside eleven syntactic "
+             "trigger regions (known findings with witnesses) agreement of rdflib, model and specification rests on generated queries judged by the verified bottom-up checker.",
+        design="0, 7/C04", technique="Coq proof (BGP evaluation by permutation/commutation lemmas on canonical solutions) + bottom-up algebra as verified checker" + T_CORR),
     "C05": dict(
         text="Proof (partial): an executable strict reader for the W3C N-Triples/N-Quads grammar (validated on every run against all 157 W3C syntax test files) and a model of rdflib's writer: "
              "for every well-formed row/document outside four writer trigger regions the strict reader reads rdflib's line as exactly the input quads (C05_nt_output_valid, C05_nq_output_valid, "
@@ -98,6 +105,12 @@ CLAIMED = {
              "round trip (under stated urljoin/urlparse hypotheses replayed on the real functions) are proved; COMPLETENESS of rdflib's canonical labelling is not proved (differential evidence only). "
              "One known finding (blank node in predicate position).",
         design="0, 7/C14", technique="Coq proof (verified iso decision procedure as oracle, set-operator laws, string model of skolemisation)" + T_CORR),
+    "C15": dict(
+        text="Proof (partial): permuting the triple patterns of a basic graph pattern and swapping the operands of UNION leave the solution multiset unchanged, on the specification and on the "
+             "model of rdflib's evaluator under every context (C15_bgp_perm, C15_bgp_perm_model, C15_union_comm, C15_union_comm_model). Join commutativity is false on the faithful model inside the C04 "
+             "trigger regions; variable renaming, prefix spellings, initBindings vs VALUES, prepared-query reuse (state leaks cannot be exhibited by a pure model) and store independence (Memory, "
+             "SimpleMemory, AuditableStore, ReadOnlyGraphAggregate) are conformance runs: every C04 case is posed in all these variants and the answers compared as multisets.",
+        design="0, 7/C15", technique="Coq proof (permutation invariance of BGP/UNION evaluation) + variant-posing correspondence runs" + T_CORR),
     "C16": dict(
         text="Proof: JSON term/result round trip (assuming json loads∘dumps = id as a visible hypothesis), XML text/attribute escaping round trips by induction over characters "
              "for XML Chars (CR, control characters, empty IRI, falsy literals refuted: known findings), TSV term and row recovery for every W3C-conformant rendering (document level run only), "
